@@ -110,10 +110,13 @@ def stack(draw, k_range=(2, 6), n_range=(3, 7), masks=('none', 'none', 'arbitrar
     if grouped:
         g = draw(st.lists(st.integers(0, 2), min_size=k, max_size=k))
         g[0], g[1] = 0, 1
-        labs = draw(st.sampled_from([[3, -2, 10], [0, 1, 2], [7, 5, 100]]))
+        labs = draw(st.sampled_from([[3, -2, 10], [0, 1, 2], [7, 5, 100],
+                                     [20240112, 20240105, 20240119],      # date stamps
+                                     ['sub-02', 'sub-01', 'sub-10'], [2.5, 1.5, 1.0]]))
         case['groups'] = [labs[x] for x in g]
     else:
-        case['groups'] = [3 * x - 4 for x in draw(gen.permutation(k))]
+        base = draw(st.sampled_from([0, 0, 20240100]))
+        case['groups'] = [base + 3 * x - 4 for x in draw(gen.permutation(k))]
     return case
 
 
